@@ -106,6 +106,10 @@ def streams(tier, rng, P, only=None, cases=None):
             cs.append(dict(req="run " + hx(src), src=src, show=src, key="ps%d" % i))
         cs.append(dict(req="run " + hx("y7,100 @5; c d e PlayFrom(1:2:0)"), src="y7,100 @5; c d e PlayFrom(1:2:0)", show="y7,100 @5; c d e PlayFrom(1:2:0)", key="fixed0"))
         cs.append(dict(req="run " + hx("y200,1 c c PlayFrom(1:2:0)"), src="y200,1 c c PlayFrom(1:2:0)", show="y200,1 c c PlayFrom(1:2:0)", key="fixed1"))
+        # the point at tick 0 is a point like any other: what starts before it (a negative timing, a position before the first bar) is omitted
+        for j, src in enumerate(["PlayFrom(0) t-10 c t0 d", "? t-10 c t0 d", "PlayFrom(1:1:0) TIME(1:1:-24) c TIME(1:1:0) d", "t-5 y7,90 c PlayFrom(0) t0 e", "? r-8 y10,3 c r8 d",
+                                 "PlayFrom(0) c d", "TR=2 t-20 c d TR=1 ? e", "PlayFrom(0) TIME(0:4:0) @9; c TIME(1:1:0) d"]):
+            cs.append(dict(req="run " + hx(src), src=src, show=src, key="zero%d" % j))
         return cs
     def src_model(c, st, f):
         if st != "ok": return []
